@@ -32,8 +32,10 @@ VERIF = os.path.dirname(os.path.dirname(os.path.abspath(__file__)))
 # IRVERIF_LEAN_DIR: development only (a private copy of lean/ while proofs are being written)
 LEAN_DIR = os.environ.get("IRVERIF_LEAN_DIR") or os.path.join(VERIF, "lean")
 DRIVER = os.path.join(LEAN_DIR, ".lake", "build", "bin", "irdriver")
-EVIDENCE_DIR = os.path.join(VERIF, "evidence")
-REPLAY_DIR = os.path.join(VERIF, "replays")
+# IRVERIF_OUT_DIR: development only (runs against seeded changes must not overwrite the real evidence)
+_OUT = os.environ.get("IRVERIF_OUT_DIR") or VERIF
+EVIDENCE_DIR = os.path.join(_OUT, "evidence")
+REPLAY_DIR = os.path.join(_OUT, "replays")
 CORPUS_DIR = os.path.join(VERIF, "corpus")
 KNOWN_FILE = os.path.join(VERIF, "known_findings.json")
 ALLOWED_AXIOMS = {"propext", "Classical.choice", "Quot.sound"}
